@@ -102,28 +102,37 @@ class ExternalOptimizer(Optimizer):
                 answer: str | list[Any] | dict[str, Any] | None = None
                 exception: BaseException | None = None
 
-                while process.poll() is None:
-                    if answer is None:
-                        try:
-                            answer = self._handle_request(comm, initial_values)
-                        except BaseException as exc:  # noqa: BLE001
-                            # Store the exception (also KeyboardInterrupt and SystemExit
-                            # must not leave the optimizer process behind), we first
-                            # need to send the 'abort' signal:
-                            exception = exc
-                            answer = "abort"
+                try:
+                    while process.poll() is None:
+                        if answer is None:
+                            try:
+                                answer = self._handle_request(comm, initial_values)
+                            except BaseException as exc:  # noqa: BLE001
+                                # Store the exception (also KeyboardInterrupt and SystemExit
+                                # must not leave the optimizer process behind), we first
+                                # need to send the 'abort' signal:
+                                exception = exc
+                                answer = "abort"
 
-                    if answer is not None and comm.write(answer):
-                        answer = None
-                        # If the message has been sent, then reraise any exceptions:
-                        if exception is not None:
-                            # The process should have aborted:
-                            with contextlib.suppress(ProcessLookupError):
-                                os.kill(self._process_pid, signal.SIGTERM)
-                            with contextlib.suppress(subprocess.TimeoutExpired):
-                                process.wait(_PROCESS_TIMEOUT)
-                            raise exception
-                    time.sleep(0.1)
+                        if answer is not None and comm.write(answer):
+                            answer = None
+                            # If the message has been sent, then reraise any exceptions:
+                            if exception is not None:
+                                # The process should have aborted:
+                                with contextlib.suppress(ProcessLookupError):
+                                    os.kill(self._process_pid, signal.SIGTERM)
+                                with contextlib.suppress(subprocess.TimeoutExpired):
+                                    process.wait(_PROCESS_TIMEOUT)
+                                raise exception
+                        time.sleep(0.1)
+                except BaseException:
+                    # Whatever went wrong (e.g. an answer that cannot be sent), do not
+                    # leave the optimizer process behind:
+                    with contextlib.suppress(ProcessLookupError):
+                        os.kill(self._process_pid, signal.SIGTERM)
+                    with contextlib.suppress(subprocess.TimeoutExpired):
+                        process.wait(_PROCESS_TIMEOUT)
+                    raise
 
                 with contextlib.suppress(ProcessLookupError):
                     os.kill(self._process_pid, signal.SIGTERM)
